@@ -374,8 +374,8 @@ func (m *RWMutex) RUnlock() {
 	s.park(gate{kind: gRUnlock, lock: s.lockFor(unsafe.Pointer(m))})
 }
 
-func (m *RWMutex) TryLock() bool  { panic("mockdrv: TryLock is not modelled") }
-func (m *RWMutex) TryRLock() bool { panic("mockdrv: TryRLock is not modelled") }
+func (m *RWMutex) TryLock() bool   { panic("mockdrv: TryLock is not modelled") }
+func (m *RWMutex) TryRLock() bool  { panic("mockdrv: TryRLock is not modelled") }
 func (m *RWMutex) RLocker() Locker { return rlocker{m} }
 
 type rlocker struct{ m *RWMutex }
